@@ -36,6 +36,7 @@ type Stats struct {
 	Internal                string // replay divergence etc.
 	MaxPoints               int
 	Capped                  bool
+	Pruned                  int64  // executions cut short because every enabled thread was asleep (sleep-set mode)
 	Tick                    func() // called once per execution (liveness signal for the watchdog)
 	FirstSchedule           string // the first execution of this part, written out (for the evidence samples)
 }
@@ -211,4 +212,252 @@ func ExplorePart(sc *Scenario, pt Part, bound int, st *Stats, maxExec int64) {
 		return
 	}
 	Explore(sc, pt.Prefix, bound, st, maxExec)
+}
+
+// ---------------------------------------------------------------------------------------------
+// Exploration without a preemption bound, with sleep sets (Godefroid): at a state, once the subtree below the
+// transition of thread a has been explored, a is put to sleep in the subtrees of its later siblings and stays
+// asleep there until a transition is executed that depends on a's pending operation. Every complete execution
+// that is cut this way is a reordering of independent transitions of one that is explored, so every Mazurkiewicz
+// trace keeps a representative. Dependence (conservative): the executed transition logged something, made a
+// scheduler-wide observation or was an environment choice; either operation is global (object 0: harness points,
+// spawn, exit, select, Once, Cond, Close and deadline operations of the simulated sockets); or both work on the
+// same object (mutex, wait group, pool, atomic location, pipe half, packet socket, listener, channel).
+// The oracle of a scenario may only look at the log, at the final state, and at scheduler-wide state read behind a
+// harness point — all of which these rules order.
+
+type sleepFrame struct {
+	pend   []vsched.Pending
+	sleep  map[int]vsched.Pending // asleep at entry to this state
+	chosen int
+	choose bool // an environment choice (Choose): every alternative is explored, nothing sleeps through it
+}
+
+func independent(t vsched.Pending, logged, global bool, u vsched.Pending) bool {
+	if logged || global || t.Obj == 0 || u.Obj == 0 {
+		return false
+	}
+	return t.Obj != u.Obj
+}
+
+// runSleep executes the scenario under prefix; beyond the prefix it takes, at every point, the first enabled
+// thread that is not asleep. It returns the frames of the path. redundant: the prefix itself runs into a sleeping
+// transition (the whole subtree is covered elsewhere).
+func runSleep(sc *Scenario, prefix []int) (x *vsched.Exec, frames []*sleepFrame, check func(*vsched.Exec) (string, map[string]string), redundant bool) {
+	body, chk := sc.New()
+	vsched.Chooser = func(x *vsched.Exec, rec *vsched.PointRec, prescribed int) int {
+		f := &sleepFrame{pend: rec.Pend, sleep: map[int]vsched.Pending{}, choose: strings.HasPrefix(rec.Op, "choose:")}
+		if n := len(frames); n > 0 {
+			p := frames[n-1]
+			if !p.choose && !f.choose {
+				t := p.pend[p.chosen]
+				prev := x.Points[n-1]
+				logged := rec.LogLen > prev.LogLen
+				carry := func(u vsched.Pending) {
+					if u.Tid != t.Tid && independent(t, logged, rec.Global, u) {
+						f.sleep[u.Tid] = u
+					}
+				}
+				for _, u := range p.sleep {
+					carry(u)
+				}
+				for j := 0; j < p.chosen; j++ { // earlier siblings: explored before this one
+					if _, asleep := p.sleep[p.pend[j].Tid]; !asleep {
+						carry(p.pend[j])
+					}
+				}
+			}
+		}
+		pick := -1
+		if prescribed >= 0 {
+			pick = prescribed
+			if !f.choose {
+				if _, asleep := f.sleep[rec.Pend[pick].Tid]; asleep {
+					redundant = true
+					return -1
+				}
+			}
+		} else if f.choose {
+			pick = 0
+		} else {
+			for j, u := range rec.Pend {
+				if _, asleep := f.sleep[u.Tid]; !asleep {
+					pick = j
+					break
+				}
+			}
+		}
+		if pick < 0 {
+			return -1 // every enabled thread is asleep: this execution is a reordering of one already explored
+		}
+		f.chosen = pick
+		frames = append(frames, f)
+		return pick
+	}
+	x = vsched.Run(prefix, body)
+	vsched.Chooser = nil
+	return x, frames, chk, redundant
+}
+
+// stepSleep runs and judges the one execution that prefix (followed by first-awake choices) denotes.
+func stepSleep(sc *Scenario, prefix []int, st *Stats) (x *vsched.Exec, frames []*sleepFrame, ok bool) {
+	x, frames, check, redundant := runSleep(sc, prefix)
+	if redundant {
+		return x, nil, false
+	}
+	st.Executions++
+	st.Transitions += int64(len(x.Points))
+	if len(x.Points) > st.MaxPoints {
+		st.MaxPoints = len(x.Points)
+	}
+	for h := range x.States {
+		st.States[h] = struct{}{}
+	}
+	if x.Diverged != "" {
+		st.Internal = x.Diverged
+		return x, nil, false
+	}
+	if st.Tick != nil {
+		st.Tick()
+	}
+	if x.Pruned {
+		st.Pruned++
+	} else {
+		judge(sc, x, check, st, func(ch []int) *vsched.Exec {
+			// replay without the chooser: the plain scheduler follows the complete choice sequence
+			b2, _ := sc.New()
+			return vsched.Run(ch, b2)
+		})
+		if st.Internal != "" {
+			return x, nil, false
+		}
+	}
+	return x, frames, true
+}
+
+// children lists the prefixes of the subtrees that branch off the execution (x, frames) at positions ≥ from.
+func childrenSleep(x *vsched.Exec, frames []*sleepFrame, from int) [][]int {
+	var out [][]int
+	ch := x.Choices()
+	for i := from; i < len(frames); i++ {
+		f := frames[i]
+		for alt := f.chosen + 1; alt < len(f.pend); alt++ {
+			if !f.choose {
+				if _, asleep := f.sleep[f.pend[alt].Tid]; asleep {
+					continue
+				}
+			}
+			out = append(out, append(append([]int(nil), ch[:i]...), alt))
+		}
+	}
+	return out
+}
+
+// ExploreSleep enumerates, without a preemption bound, one representative of every class of executions below prefix.
+func ExploreSleep(sc *Scenario, prefix []int, st *Stats, maxExec int64) {
+	if st.Internal != "" || (maxExec > 0 && st.Executions >= maxExec) {
+		if maxExec > 0 && st.Executions >= maxExec {
+			st.Capped = true
+		}
+		return
+	}
+	x, frames, ok := stepSleep(sc, prefix, st)
+	if !ok {
+		return
+	}
+	for _, np := range childrenSleep(x, frames, len(prefix)) {
+		ExploreSleep(sc, np, st, maxExec)
+	}
+}
+
+// PartitionSleep splits the sleep-set tree into parts (deterministic) for process sharding.
+func PartitionSleep(sc *Scenario, levels int) ([]Part, string) {
+	parts := []Part{{Prefix: nil}}
+	for l := 0; l < levels || (len(parts) < 200 && l < 8); l++ {
+		var next []Part
+		grew := false
+		for _, pt := range parts {
+			if pt.Leaf {
+				next = append(next, pt)
+				continue
+			}
+			st := NewStats()
+			x, frames, ok := stepSleep(sc, pt.Prefix, st)
+			if st.Internal != "" {
+				return nil, st.Internal
+			}
+			if !ok {
+				continue // redundant prefix
+			}
+			next = append(next, Part{Prefix: pt.Prefix, Leaf: true})
+			for _, np := range childrenSleep(x, frames, len(pt.Prefix)) {
+				next = append(next, Part{Prefix: np})
+				grew = true
+			}
+		}
+		parts = next
+		if !grew {
+			break
+		}
+	}
+	return parts, ""
+}
+
+// ExplorePartSleep explores one part: a leaf is the single execution its prefix denotes.
+func ExplorePartSleep(sc *Scenario, pt Part, st *Stats, maxExec int64) {
+	if pt.Leaf {
+		stepSleep(sc, pt.Prefix, st)
+		return
+	}
+	ExploreSleep(sc, pt.Prefix, st, maxExec)
+}
+
+// judge applies the scenario's oracle to a complete execution (shared by both explorers).
+func judge(sc *Scenario, x *vsched.Exec, check func(*vsched.Exec) (string, map[string]string), st *Stats, replay func([]int) *vsched.Exec) {
+	if st.FirstSchedule == "" {
+		sum := x.Summary()
+		if len(sum) > 1500 {
+			sum = sum[:1500] + "…"
+		}
+		st.FirstSchedule = sum + "log: " + strings.Join(x.Log, " | ")
+	}
+	outcome, viol := check(x)
+	st.Outcomes[outcome]++
+	if x.Panic != "" {
+		if viol == nil {
+			viol = map[string]string{}
+		}
+		viol["panic"] = x.Panic
+	}
+	for _, r := range x.Races {
+		if viol == nil {
+			viol = map[string]string{}
+		}
+		viol["race/"+r.Label] = fmt.Sprintf("conflicting accesses not ordered by happens-before: %s || %s", r.A, r.B)
+	}
+	if sc.Classify != nil && len(viol) > 0 {
+		viol = sc.Classify(x, viol)
+	}
+	if len(viol) > 0 && len(st.Violations) < 40 {
+		ch := x.Choices()
+		sig := strings.Join(x.Log, "\n") + x.Summary()
+		for i := 0; i < 2; i++ {
+			y := replay(ch)
+			if y.Diverged != "" || strings.Join(y.Log, "\n")+y.Summary() != sig {
+				st.Internal = fmt.Sprintf("scenario %s is not deterministic under replay of %v: %s", sc.Name, ch, y.Diverged)
+				return
+			}
+		}
+		for k, d := range viol {
+			dup := false
+			for _, v := range st.Violations {
+				if v.Key == k {
+					dup = true
+				}
+			}
+			if !dup {
+				st.Violations = append(st.Violations, Violation{Key: k, Detail: d, Choices: ch, Schedule: x.Summary() + "log:\n" + strings.Join(x.Log, "\n")})
+			}
+		}
+	}
 }
